@@ -22,15 +22,15 @@ const modPath = "github.com/mholt/caddy-l4"
 type Ctx struct {
 	callSites map[*ssa.Function][]ssa.CallInstruction
 	fnEscapes map[*ssa.Function]bool
-	Repo    string
-	Tier    string
-	Fset    *token.FileSet
-	Pkgs    []*packages.Package // module packages (non-test files)
-	ByPath  map[string]*packages.Package
-	Prog    *ssa.Program
-	SSA     map[string]*ssa.Package // by import path (module packages only)
-	Funcs   []*ssa.Function         // every source function of the module incl. closures
-	AllDeps bool                    // dependencies loaded with syntax (thorough)
+	Repo      string
+	Tier      string
+	Fset      *token.FileSet
+	Pkgs      []*packages.Package // module packages (non-test files)
+	ByPath    map[string]*packages.Package
+	Prog      *ssa.Program
+	SSA       map[string]*ssa.Package // by import path (module packages only)
+	Funcs     []*ssa.Function         // every source function of the module incl. closures
+	AllDeps   bool                    // dependencies loaded with syntax (thorough)
 
 	perConn map[*ssa.Function]bool // lazily computed
 }
